@@ -337,6 +337,8 @@ get_vmemmap_param(struct os_init_data *ctl, addrxlat_param_lookup_t *param)
 		elem = data;
 	}
 
+	/* The translation system owns the table from now on. */
+	ctl->sys->os_lookup_tbl = (addrxlat_lookup_elem_t*) param->tbl;
 	return ADDRXLAT_OK;
 
  err_free:
